@@ -118,6 +118,10 @@ RunLoop:
 	for {
 		t.RequireCPU(1)
 
+		// Keep the position up to date: the instruction may call out (e.g. to
+		// a metamethod) and errors raised there are located using it.
+		c.pc = pc
+
 		if t.DebugHooks.areFlagsEnabled(HookFlagLine) {
 			line := lines[pc]
 			if line > 0 && line != lastLine {
